@@ -6,6 +6,7 @@ import Proofs.C13.Part
 import Proofs.C13.LookbackEquiv
 import Proofs.C13.PartLB
 import Proofs.C13.Reads
+import Proofs.C13.Interleave
 /-!
 # C13 — property theorems (statements only; proofs in `Proofs/C13*.lean`)
 
@@ -30,10 +31,40 @@ fail (as `Versions` did before fix 0ec0b1e, finding F-C13-1). -/
 theorem proto_fields_accounted :
     ∀ f ∈ Generated.C13.protoFields, f ∈ Generated.C13.comparedFields ∨ f = "Id" := by decide
 
-/-- every compared field either makes the result `Different` or is one of the two fields that the
-cached sub-rings refresh. -/
-theorem compared_fields_refreshed_or_different :
-    ∀ f ∈ Generated.C13.comparedFields, f ∈ Generated.C13.refreshedFields ∨ f ∉ stateFields := by decide
+/-! #### how `RingCompare` USES each field
+
+`Generated.C13.fieldUse` is obtained by RUNNING the real `Desc.RingCompare` on two one-instance
+descriptors that differ in exactly one proto field (reflection over `InstanceDesc`, so a new field
+appears by itself): `E` = Equal, `S` = EqualButStatesAndTimestamps, `D` = Different. -/
+
+def mBase : Inst :=
+  { id := "i0", addr := "a", ts := 1, state := .ACTIVE, tokens := [1, 2], zone := "z", regTs := 5, roTs := 7,
+    ro := false, versions := [(1, 1)] }
+def cmpCode (m : Inst) : String :=
+  match ringCompare [mBase] [m] with | .equal => "E" | .equalButStatesAndTimestamps => "S" | .different => "D"
+/-- the same experiment on the model (`Id` is overwritten with the map key by `setInstanceIDs` before the
+comparison, so changing only that field leaves the model's descriptor unchanged). -/
+def modelFieldUse : List (String × String) :=
+  [("Addr", cmpCode { mBase with addr := "ax" }), ("Timestamp", cmpCode { mBase with ts := 2 }),
+   ("State", cmpCode { mBase with state := .LEAVING }), ("Tokens", cmpCode { mBase with tokens := [1, 3] }),
+   ("Zone", cmpCode { mBase with zone := "zx" }), ("RegisteredTimestamp", cmpCode { mBase with regTs := 6 }),
+   ("Id", cmpCode mBase), ("ReadOnlyUpdatedTimestamp", cmpCode { mBase with roTs := 8 }),
+   ("ReadOnly", cmpCode { mBase with ro := true }), ("Versions", cmpCode { mBase with versions := [(1, 2)] })]
+
+/-- the real `RingCompare` classifies a change of every single field exactly as the model's `ringCompare`. -/
+theorem field_use_matches_model : Generated.C13.fieldUse = modelFieldUse := by decide
+
+/-- the experiment covers every proto field (a new field cannot be forgotten). -/
+theorem field_use_lists_every_proto_field : Generated.C13.fieldUse.map (·.1) = Generated.C13.protoFields := by decide
+
+/-- a field whose change alone is classified `EqualButStatesAndTimestamps` (the cached sub-rings survive
+it) is exactly a field that the cached sub-rings refresh when served; and the only field whose change is
+not noticed at all is `Id`, which `setInstanceIDs` derives from the map key. A new field that
+`RingCompare` ignores, or notices only by clearing the states-and-timestamps flag without the caches
+refreshing it, breaks this obligation. -/
+theorem state_class_iff_refreshed :
+    (∀ p ∈ Generated.C13.fieldUse, p.2 = "S" ↔ p.1 ∈ Generated.C13.refreshedFields ∧ p.1 ∈ Generated.C13.refreshedFieldsLookback) ∧
+    (∀ p ∈ Generated.C13.fieldUse, p.2 = "E" → p.1 = "Id") := by decide
 
 /-- the fields that may differ under `EqualButStatesAndTimestamps` are exactly the fields the cached
 sub-rings refresh. -/
@@ -75,7 +106,15 @@ in every field of every returned instance:
   replication factor; `get1` is its RF-1 special form kept from earlier rounds;
 * `GetReplicationSetForOperation` (`readAll`), `GetTokenRangesForInstance` (`readRanges`), `Zones`
   (`readZones`), the instance / zone counters, and the descriptor itself.
-(Full strength since fix 0ec0b1e; before it the statement held only up to `Versions`.) -/
+(Full strength since fix 0ec0b1e; before it the statement held only up to `Versions`.)
+What is proved and what is evidence: the conjuncts about the shuffle shards and `getOnShard(LB)` need the
+cache invariants (hits, refresh, validity windows). The conjuncts about `readGet` / `readAll` /
+`readRanges` / `readZones` / the descriptor follow from `client_inv` alone, because the model defines
+these reads with the index descriptor and the latest descriptor as separate arguments; that the Go
+methods mix kept indexes and latest descriptor exactly like that is differential evidence (the oracle
+reproduces every such answer of the long-lived client), not a theorem. Histories here are sequences of
+ATOMIC queries; `observational_equivalence_interleaved` below splits every query into its two lock
+sections. -/
 theorem observational_equivalence (st : Streams) (cfg : Cfg) (steps : List Step) (hc : CanonSteps steps) :
     let c := run st { cfg := cfg } steps
     let f := fresh cfg (lastDesc steps [])
@@ -117,6 +156,75 @@ theorem fresh_reads_are_the_models (rcfg : C01.Cfg) (d : Desc) (hd : Canon d) :
   ⟨fun k op now r => readGet_fresh rcfg d hd k op now r, fun op now => readAll_fresh rcfg d op now,
     fun id => readRanges_fresh rcfg d id⟩
 
+def gi0 : Inst := { id := "i0", tokens := [10] }
+def gi1 : Inst := { id := "i1", tokens := [20], ro := true, roTs := 5 }
+def gi1' : Inst := { id := "i1", tokens := [20] }
+def gst : Streams := fun _ _ _ => 0
+
+/-- **observational equivalence under interleaving** (the "schedules / concurrent readers" half).
+Histories are sequences of atomic actions of the real code, each under one lock acquisition:
+`updateRingState`; the FIRST half of a (look-back) shuffle-shard query — cache look-up and, on a miss,
+computation under the read lock, the built sub-ring remembering the `lastTopologyChange` (`epoch`) it
+saw (`bS`, `bL`); the SECOND half — `setCachedShuffledSubring(WithLookback)`, which stores only if the
+ring's `lastTopologyChange` is still the one the sub-ring saw (`fS n`, `fL n`: any pending store, in any
+order, any number of times, after any number of updates and other readers' queries);
+`CleanupShuffleShardCache` (`clean`); and the atomic queries `qS`, `qL` (= first half directly followed
+by the second, `PfC13.queryShard_eq_begin_store`). After ANY such history every modelled read of the
+client equals the read of a fresh client built from the latest descriptor; in particular a sub-ring
+computed before a topology change is never served afterwards. Hypothesis made explicit by the model:
+two re-indexings never carry the same `lastTopologyChange` (the epoch is a counter). -/
+theorem observational_equivalence_interleaved (st : Streams) (cfg : Cfg) (steps : List IStep) (hc : CanonISteps steps) :
+    let c := (irun st { c := { cfg := cfg } } steps).c
+    let f := fresh cfg (lastDescI steps [])
+    (∀ ident size, (queryShard c st ident size).1 = (queryShard f st ident size).1) ∧
+    (∀ ident size, (beginShard c st ident size).1 = (queryShard f st ident size).1) ∧
+    (∀ ident size period now, (queryShardLB c st ident size period now).1 = (queryShardLB f st ident size period now).1) ∧
+    (∀ ident size period now, (beginShardLB c st ident size period now).1 = (queryShardLB f st ident size period now).1) ∧
+    (∀ rf hb ident size k op now, getOnShard c st rf hb ident size k op now = getOnShard f st rf hb ident size k op now) ∧
+    (∀ rf hb ident size period qnow k op now,
+      getOnShardLB c st rf hb ident size period qnow k op now = getOnShardLB f st rf hb ident size period qnow k op now) ∧
+    (∀ rcfg k op now rfCall, readGet rcfg c.idx c.desc k op now rfCall = readGet rcfg f.idx f.desc k op now rfCall) ∧
+    (∀ rcfg op now, readAll rcfg c.idx c.desc op now = readAll rcfg f.idx f.desc op now) ∧
+    (∀ rcfg id, readRanges rcfg c.idx c.desc id = readRanges rcfg f.idx f.desc id) ∧
+    readZones c.idx = readZones f.idx ∧
+    (∀ zs, counts c zs = counts f zs) ∧ c.desc = f.desc := by
+  have hI := iinv_run st steps { c := { cfg := cfg } } (iinv_init st cfg) hc
+  have hi := hI.inv
+  have hd := irun_desc st steps { c := { cfg := cfg } }
+  simp only
+  have e : fresh cfg (lastDescI steps []) =
+      fresh (irun st { c := { cfg := cfg } } steps).c.cfg (irun st { c := { cfg := cfg } } steps).c.desc := by
+    rw [hd.1, hd.2]
+  rw [e]
+  have hf := fresh_fields (irun st { c := { cfg := cfg } } steps).c.cfg (irun st { c := { cfg := cfg } } steps).c.desc
+  rw [hf.1, hf.2.1]
+  exact ⟨fun i s => queryShard_equiv st _ hi i s,
+    fun i s => by rw [beginShard_answer]; exact queryShard_equiv st _ hi i s,
+    fun i s p n => queryShardLB_equiv st _ hi i s p n,
+    fun i s p n => by rw [beginShardLB_answer]; exact queryShardLB_equiv st _ hi i s p n,
+    fun rf hb i s k op n => getOnShard_equiv st _ hi rf hb i s k op n,
+    fun rf hb i s p q k op n => getOnShardLB_equiv st _ hi rf hb i s p q k op n,
+    fun rc k op n r => readGet_of_key rc _ _ _ hi.keyEq k op n r,
+    fun rc op n => readAll_of_key rc _ _ _ hi.keyEq op n,
+    fun rc id => readRanges_of_key rc _ _ _ hi.keyEq id,
+    readZones_of_key _ _ hi.keyEq,
+    fun zs => counts_equiv st _ hi zs, rfl⟩
+
+/-- **the guard is necessary** (what the escaped seeded change C13-r2 removed): the very same
+interleaving with the second half storing unconditionally serves a removed instance. First half of
+`ShuffleShard("t", 0)` on `[wi0, wi1]`, then a topology change to `[wi1]`, then the store: with the
+guard the later query answers like a fresh client, without it (`setAssoc` unconditionally) it would
+answer `[wi0]`. -/
+theorem cache_fill_guard_witness :
+    let c0 : Client := update { cfg := ⟨false⟩ } [gi0, gi1]
+    let r := beginShard c0 gst "t" 0
+    let c1 := update r.2.2 [gi1']
+    r.2.1 = some ⟨[gi0], 1⟩ ∧
+    (queryShard (storeShard c1 ⟨"t", 0⟩ ⟨[gi0], 1⟩) gst "t" 0).1 = (queryShard (fresh ⟨false⟩ [gi1']) gst "t" 0).1 ∧
+    (queryShard { c1 with cache := setAssoc ⟨"t", 0⟩ ⟨[gi0], 1⟩ c1.cache } gst "t" 0).1 = [{ gi0 with state := .ACTIVE, ts := 0 }] ∧
+    (queryShard (fresh ⟨false⟩ [gi1']) gst "t" 0).1 = [gi1'] := by
+  decide
+
 /-- **lookback_window_valid**: after any history, a cached look-back sub-ring is valid for every
 window start in `[after, before]`: there the ring itself would not be returned and the look-back
 selection is the one that was cached (`before` = `validForLookbackWindowsStartingBefore`, the
@@ -132,12 +240,17 @@ theorem lookback_window_valid (st : Streams) (cfg : Cfg) (steps : List Step) (hc
 
 /-! ### partition ring: watcher and shard cache -/
 
-/-- the watcher replaces the whole immutable ring (and with it the cache) on every update. -/
-theorem watcher_fresh (c : PClient) (ps : List Part) : pupdate c ps = { parts := ps } := rfl
+/- `watcher_fresh` (`pupdate c ps = { parts := ps }`, true by definition of the model) is no longer listed as
+an obligation: that `PartitionRingWatcher.updatePartitionRing` replaces the whole immutable ring — and
+with it the cache — is an assumption of the model tied by the `C13.phist` correspondence cases. Its error
+path (`NewPartitionRingWithOptions` fails → the old ring is kept) is not modelled: with tokens and
+owners derived from the same descriptor `buildRingTokenPartitionLookups` cannot fail. -/
 
 /-- **partition ring, observational equivalence**: after any history of watcher updates (partition ids
 distinct, as map keys are) and plain / look-back queries, the plain shard and the look-back shard at
-any query time (cache hits included) are the shards computed from the latest descriptor. -/
+any query time (cache hits included) are the shards computed from the latest descriptor. Histories
+may contain `evict` steps that drop arbitrary entries from both caches (what the LRU storage of
+`partitions_ring_shuffle_shard_cache.go` does when `ShuffleShardCacheSize > 0`). -/
 theorem partition_observational_equivalence (st : PStreams) (steps : List PStep) (hw : PWFSteps steps) :
     let c := prun st {} steps
     (∀ ident size, (pqueryShard c st ident size).1 = pshard (plast steps []) (st ident) size 0 0) ∧
@@ -147,12 +260,6 @@ theorem partition_observational_equivalence (st : PStreams) (steps : List PStep)
   have h1 := pinv_run st steps {} (fun k ids hk => by simp [lookupAssoc] at hk)
   simp only
   refine ⟨fun i s => by rw [pqueryShard_equiv st _ h1.1, h1.2], fun i s p n => by rw [pqueryShardLB_equiv st _ h2, h1.2]⟩
-
-/-- after any history of updates and queries the cached plain partition shard is the computed one. -/
-theorem partition_cache_equiv (st : PStreams) (steps : List PStep) (ident : String) (size : Int) :
-    (pqueryShard (prun st {} steps) st ident size).1 = pshard (plast steps []) (st ident) size 0 0 := by
-  have h := pinv_run st steps {} (fun k ids hk => by simp [lookupAssoc] at hk)
-  rw [pqueryShard_equiv st _ h.1, h.2]
 
 /-
 History — finding F-C13-1 (fixed by 0ec0b1e). Before the fix `RingCompare` did not read `Versions`; these
@@ -190,6 +297,18 @@ example : CanonSteps [Step.upd [wi0, wi1], Step.qS "t" 0, Step.upd [wi0v, wi1]] 
   · cases hd; unfold Canon; decide
   · cases hd
   · cases hd; unfold Canon; decide
+/-- `lookback_window_valid` is not vacuous: after `upd [wi0, wi1]; ShuffleShardWithLookback("t", 0, 10 s, now = 100)`
+the look-back cache holds an entry valid from window start 90 on, and a query at `now = 103` (window
+start 93) falls inside its validity window. -/
+example : let c := run wst { cfg := ⟨false⟩ } [Step.upd [wi0, wi1], Step.qL "t" 0 10 100]
+    ∃ e, lookupAssoc (⟨"t", 0, 10⟩ : LKey) c.lbCache = some e ∧ e.sub.members = [wi0] ∧
+      e.after ≤ (103 : Int) - 10 ∧ (103 : Int) - 10 ≤ e.before :=
+  ⟨⟨⟨[wi0], 1⟩, 90, C12.maxInt⟩, by decide, by decide, by decide, by decide⟩
+/-- an interleaved history: a reader's first half, a topology change, the reader's (dropped) store, a cleanup. -/
+example : CanonISteps [IStep.upd [gi0, gi1], IStep.bS "t" 0, IStep.upd [gi1'], IStep.fS 0, IStep.clean "t"] := by
+  intro s hs d hd
+  simp only [List.mem_cons, List.not_mem_nil, or_false] at hs
+  rcases hs with rfl | rfl | rfl | rfl | rfl <;> cases hd <;> (unfold Canon; decide)
 example : ringCompare [wi0, wi1] [{ wi0 with ts := 5 }, wi1] = .equalButStatesAndTimestamps := by decide
 example : ringCompare [wi0, wi1] [{ wi0 with zone := "b" }, wi1] = .different := by decide
 
